@@ -510,7 +510,44 @@ def rule_r10(ctx, rid="C10.R10"):
     ctx.r.floor(rid, n, 1, "validated trailer windows")
 
 
-RULES = [rule_g1, rule_g2_g3, rule_g4, rule_g5, rule_uses, rule_r9, rule_r10]
+def rule_r11(ctx, rid="C10.R11"):
+    ctx.r.rule(rid, "every chunk-size line is judged: in ChunkedReceiver.received no finished control line is consumed without reaching the chunk-size sink `int(line, 16)` (behind its gate, G2) or an error store - a line that is skipped (the empty one, say) is a chunk size accepted outside the grammar 1*HEXDIG: `5 CRLF hello CRLF CRLF 0 CRLF CRLF` is decoded where an RFC 9112 parser refuses")
+    p = ctx.p
+    f = p.func("receiver.ChunkedReceiver.received")
+    g = cfg_of(f)
+    sinks = [n for n in g.nodes if n.ast is not None and n.kind in ("stmt", "branch", "test") and any(isinstance(c, ast.Call) and dotted(c.func) == "int" and len(c.args) == 2 and isinstance(c.args[1], ast.Constant) and c.args[1].value == 16 for c in ast.walk(n.ast))]
+    if not sinks:
+        raise AnalysisError("anchor vanished: int(<chunk size>, 16) in ChunkedReceiver.received")
+    var = None
+    for n in sinks:
+        for c in ast.walk(n.ast):
+            if isinstance(c, ast.Call) and dotted(c.func) == "int" and len(c.args) == 2 and isinstance(c.args[0], ast.Name):
+                var = c.args[0].id
+    if var is None:
+        raise AnalysisError("the chunk size converted by int(.., 16) is not a local: not a shape this rule reads")
+    # where a finished control line is cut out of the joined bytes: `line = <joined>[:pos]` / a partition head
+    starts = [n for n in g.nodes if n.kind == "stmt" and isinstance(n.ast, ast.Assign) and any(isinstance(t, ast.Name) and t.id == var for t in ast.walk(ast.Tuple(elts=list(n.ast.targets), ctx=ast.Store())))
+              and not any(g.dominates(m, n) for m in sinks) and any(g.dominates(n, m) for m in sinks)]
+    starts = [n for n in starts if not any(o is not n and g.dominates(o, n) for o in starts)]
+    if not starts:
+        raise AnalysisError("cannot find where the control line `%s` is cut out" % var)
+    errs = [n for n in g.nodes if n.kind == "stmt" and isinstance(n.ast, ast.Assign) and any(dotted(t) == "self.error" for t in n.ast.targets)]
+    heads = [x for x in g.nodes if x.kind == "join" and x.label == "loop_head"]
+    for st in starts:
+        leak = None
+        for tgt in [h for h in heads if g.dominates(h, st)] + [g.exit]:
+            pth = g.path(st, tgt, avoid=sinks + errs, follow_exc=False)
+            if pth is not None:
+                leak = pth
+                break
+        if leak is None:
+            ctx.r.ok(rid, "every finished control line reaches the chunk-size sink or an error store", f.loc(st.ast))
+        else:
+            br = [n for n in leak if n.kind == "branch"]
+            ctx.r.violation(rid, key_of(f, None, "control-line-skipped"), "a finished control line can be consumed without being judged (path through `%s`): it is neither converted as a chunk size nor refused - an empty line between chunks is skipped, the body is decoded under a framing RFC 9112 does not have" % (norm(br[-1].ast) if br else "?"), f.loc((br[-1] if br else st).ast))
+
+
+RULES = [rule_g1, rule_g2_g3, rule_g4, rule_g5, rule_uses, rule_r9, rule_r10, rule_r11]
 THOROUGH = [thorough]
 LEVEL = "other"
 
